@@ -201,6 +201,10 @@ fn run_trial_thread(trial: u64, program: String, input: String, mem: usize, b_fi
         .spawn(move || {
             alloc::begin_trial(trial, mem);
             let res = catch_unwind(AssertUnwindSafe(|| {
+                // the CLI's entry point parses a full program (module directives allowed)
+                if let Err(e) = jq::parse_program(&program) {
+                    let _ = e.to_string();
+                }
                 let expr = match jq::parse(&program) {
                     Ok(e) => e,
                     Err(e) => {
@@ -325,6 +329,8 @@ struct Refusal {
     live: u64,
     peak: u64,
     class_a: bool,
+    /// innermost `succinctly::` frames of the refused request (class A only)
+    site: String,
 }
 
 #[derive(Clone, Debug)]
@@ -408,7 +414,16 @@ fn drive_child(mut child: std::process::Child, from: u64, to: u64) -> ChildRun {
                 let live = it.next().and_then(|x| x.parse().ok()).unwrap_or(0);
                 let peak = it.next().and_then(|x| x.parse().ok()).unwrap_or(0);
                 let class_a = it.next() == Some("A");
-                last_refusal = Some((t, Refusal { size, live, peak, class_a }));
+                last_refusal = Some((t, Refusal { size, live, peak, class_a, site: String::new() }));
+            }
+            Some("SITE") => {
+                let t: u64 = it.next().and_then(|x| x.parse().ok()).unwrap_or(u64::MAX);
+                let site = it.collect::<Vec<_>>().join(" ");
+                if let Some((rt, r)) = last_refusal.as_mut() {
+                    if *rt == t {
+                        r.site = site;
+                    }
+                }
             }
             Some("T") => {
                 timed_out = it.next().and_then(|x| x.parse().ok());
@@ -477,7 +492,7 @@ fn classify(o: &Outcome) -> Option<Failure> {
                 class: "abort:impossible-allocation-refused".into(),
                 seq: 0,
                 detail: json!({"signal": signal, "refused_bytes": r.size, "live_bytes": r.live, "peak_bytes": r.peak,
-                               "stderr_tail": stderr_tail}),
+                               "site": r.site, "stderr_tail": stderr_tail}),
             }),
             None => {
                 let what = if stderr_tail.contains("overflowed its stack") {
@@ -501,6 +516,9 @@ struct Case {
     input: String,
     mem: u64,
     b_first: bool,
+    /// Run through the real `succinctly jq` binary under RLIMIT_AS instead of in-process.
+    #[serde(default)]
+    cli: bool,
 }
 
 #[derive(Serialize, Deserialize)]
@@ -523,8 +541,134 @@ fn tmp_dir() -> std::path::PathBuf {
 
 static TMP_COUNTER: AtomicU64 = AtomicU64::new(0);
 
+// --------------------------------------------------------------- CLI tier --
+
+const CLI_MEM: u64 = 1 << 30;
+
+fn cli_path() -> Option<std::path::PathBuf> {
+    std::env::var_os("SUCCINCTLY_CLI").map(std::path::PathBuf::from).filter(|p| p.exists())
+}
+
+/// Run one case through the real `succinctly jq` binary with RLIMIT_AS = 1 GiB and classify
+/// its exit status. Real time is used only to discard (10 s).
+fn run_case_cli(case: &Case) -> (Outcome, Option<Failure>) {
+    use std::os::unix::process::CommandExt;
+    let Some(cli) = cli_path() else {
+        eprintln!("harness error: SUCCINCTLY_CLI is not set or does not exist");
+        std::process::exit(2);
+    };
+    let n = TMP_COUNTER.fetch_add(1, Ordering::Relaxed);
+    let pid = std::process::id();
+    let pf = tmp_dir().join(format!("c-{pid}-{n}.jq"));
+    let _ = std::fs::write(&pf, &case.program);
+    let mut cmd = Command::new(cli);
+    cmd.args(["jq", "-c", "--from-file"])
+        .arg(&pf)
+        .env_clear()
+        .env("PATH", "/usr/bin:/bin")
+        .env("HOME", "/nonexistent")
+        .env("TZ", "UTC")
+        .stdin(Stdio::piped())
+        .stdout(Stdio::null())
+        .stderr(Stdio::piped());
+    // SAFETY: setrlimit is async-signal-safe; no allocation in the closure.
+    unsafe {
+        cmd.pre_exec(|| {
+            let lim = libc::rlimit { rlim_cur: CLI_MEM, rlim_max: CLI_MEM };
+            libc::setrlimit(libc::RLIMIT_AS, &lim);
+            let core = libc::rlimit { rlim_cur: 0, rlim_max: 0 };
+            libc::setrlimit(libc::RLIMIT_CORE, &core);
+            Ok(())
+        });
+    }
+    let mut child = match cmd.spawn() {
+        Ok(c) => c,
+        Err(e) => {
+            eprintln!("harness error: cannot spawn the CLI: {e}");
+            std::process::exit(2);
+        }
+    };
+    if let Some(mut stdin) = child.stdin.take() {
+        let _ = stdin.write_all(case.input.as_bytes());
+    }
+    let mut stderr = child.stderr.take().expect("piped stderr");
+    let err_thread = std::thread::spawn(move || {
+        let mut buf = Vec::new();
+        let mut chunk = [0u8; 4096];
+        loop {
+            match stderr.read(&mut chunk) {
+                Ok(0) | Err(_) => break,
+                Ok(k) => {
+                    buf.extend_from_slice(&chunk[..k]);
+                    if buf.len() > 65536 {
+                        let cut = buf.len() - 16384;
+                        buf.drain(..cut);
+                    }
+                }
+            }
+        }
+        String::from_utf8_lossy(&buf).into_owned()
+    });
+    let t0 = Instant::now();
+    let status = loop {
+        match child.try_wait() {
+            Ok(Some(st)) => break Some(st),
+            Ok(None) => {
+                if t0.elapsed().as_secs() >= WATCHDOG_S {
+                    let _ = child.kill();
+                    let _ = child.wait();
+                    break None;
+                }
+                std::thread::sleep(std::time::Duration::from_millis(2));
+            }
+            Err(_) => break None,
+        }
+    };
+    let err = err_thread.join().unwrap_or_default();
+    let _ = std::fs::remove_file(&pf);
+    let Some(status) = status else {
+        return (Outcome::TimedOut, None);
+    };
+    let signal = status.signal();
+    let code = status.code();
+    let crashed = signal.is_some() || code == Some(101) || code == Some(134);
+    if !crashed {
+        let class = format!("exit{}", code.unwrap_or(-1));
+        return (Outcome::Ended { class, refusals: 0, class_a: 0, peak: 0, msg: String::new() }, None);
+    }
+    let tail: String = err.chars().rev().take(600).collect::<String>().chars().rev().collect();
+    // a refused allocation: "memory allocation of N bytes failed"
+    if let Some(p) = err.find("memory allocation of ") {
+        let rest = &err[p + "memory allocation of ".len()..];
+        let size: u64 = rest.split(' ').next().and_then(|x| x.parse().ok()).unwrap_or(0);
+        let class_a = size >= CLI_MEM / 2;
+        let o = Outcome::Died {
+            signal,
+            code,
+            last_refusal: Some(Refusal { size, live: 0, peak: 0, class_a, site: String::new() }),
+            stderr_tail: tail,
+        };
+        let f = classify(&o);
+        return (o, f);
+    }
+    if let Some(p) = err.find("panicked at ") {
+        // "thread 'main' panicked at file:line:col:\nmessage"
+        let rest = &err[p..];
+        let msg = rest.lines().nth(1).unwrap_or("").trim().to_string();
+        let o = Outcome::Ended { class: "PANIC".into(), refusals: 0, class_a: 0, peak: 0, msg: esc(&msg) };
+        let f = classify(&o);
+        return (o, f);
+    }
+    let o = Outcome::Died { signal, code, last_refusal: None, stderr_tail: tail };
+    let f = classify(&o);
+    (o, f)
+}
+
 /// Run one explicit case in a fresh child and classify it.
 fn run_case(case: &Case) -> (Outcome, Option<Failure>) {
+    if case.cli {
+        return run_case_cli(case);
+    }
     let n = TMP_COUNTER.fetch_add(1, Ordering::Relaxed);
     let pid = std::process::id();
     let pf = tmp_dir().join(format!("p-{pid}-{n}.jq"));
@@ -832,6 +976,73 @@ fn run_parent(seed: u64, tier: Tier, runs: u64, workers: usize, want_log_hash: b
     });
 
     let mut st = stats.into_inner().unwrap();
+
+    // ---- CLI tier: the same trials through the real `succinctly jq` binary ----
+    let cli_trials: u64 = std::env::var("ALLOCSIM_CLI_TRIALS")
+        .ok()
+        .and_then(|s| s.parse().ok())
+        .unwrap_or(if tier == Tier::Thorough { 200_000 } else { 0 })
+        .min(runs);
+    let mut cli_classes: BTreeMap<String, u64> = BTreeMap::new();
+    let mut cli_violations: Vec<(u64, Failure)> = Vec::new();
+    let mut cli_known: BTreeMap<String, u64> = BTreeMap::new();
+    let mut cli_wall = 0.0;
+    if cli_trials > 0 {
+        if cli_path().is_none() {
+            eprintln!("harness error: the CLI tier needs SUCCINCTLY_CLI (built by ./check)");
+            return 2;
+        }
+        let tc = Instant::now();
+        let next = AtomicU64::new(0);
+        let acc: Mutex<(BTreeMap<String, u64>, Vec<(u64, Failure)>, BTreeMap<String, u64>)> = Mutex::new(Default::default());
+        std::thread::scope(|scope| {
+            for _ in 0..workers.max(1) {
+                scope.spawn(|| {
+                    let mut classes: BTreeMap<String, u64> = BTreeMap::new();
+                    let mut viol = Vec::new();
+                    let mut kn: BTreeMap<String, u64> = BTreeMap::new();
+                    loop {
+                        let i = next.fetch_add(1, Ordering::Relaxed);
+                        if i >= cli_trials {
+                            break;
+                        }
+                        let t = progen::trial(seed, i);
+                        let case = Case { program: t.program, input: t.input, mem: CLI_MEM, b_first: false, cli: true };
+                        let (o, f) = run_case_cli(&case);
+                        let name = match &o {
+                            Outcome::Ended { class, .. } => class.clone(),
+                            Outcome::Died { last_refusal: Some(r), .. } => if r.class_a { "DIED_A".into() } else { "DIED_B".into() },
+                            Outcome::Died { .. } => "DIED".into(),
+                            Outcome::TimedOut => "TIMEOUT".into(),
+                        };
+                        *classes.entry(name).or_default() += 1;
+                        if let Some(f) = f {
+                            if let Some(k) = matches_known(&f, &known) {
+                                *kn.entry(known[k].id.clone()).or_default() += 1;
+                            } else {
+                                viol.push((i, f));
+                            }
+                        }
+                    }
+                    let mut g = acc.lock().unwrap();
+                    for (k, v) in classes {
+                        *g.0.entry(k).or_default() += v;
+                    }
+                    g.1.extend(viol);
+                    for (k, v) in kn {
+                        *g.2.entry(k).or_default() += v;
+                    }
+                });
+            }
+        });
+        let g = acc.into_inner().unwrap();
+        cli_classes = g.0;
+        cli_violations = g.1;
+        cli_known = g.2;
+        cli_violations.sort_by_key(|(i, _)| *i);
+        cli_wall = tc.elapsed().as_secs_f64();
+        println!("cli tier: trials={cli_trials} classes={cli_classes:?} known_hits={cli_known:?} violations={} wall={cli_wall:.1}s", cli_violations.len());
+    }
     let wall = t0.elapsed().as_secs_f64();
     if want_log_hash {
         st.log.sort_unstable();
@@ -864,13 +1075,21 @@ fn run_parent(seed: u64, tier: Tier, runs: u64, workers: usize, want_log_hash: b
     }
     // Report the violation with the smallest trial index that is confirmed
     // when re-run alone in a fresh child.
-    for (i, f) in st.violations.iter().take(8) {
+    let all_violations: Vec<(u64, Failure, bool)> = st
+        .violations
+        .iter()
+        .take(8)
+        .map(|(i, f)| (*i, f.clone(), false))
+        .chain(cli_violations.iter().take(8).map(|(i, f)| (*i, f.clone(), true)))
+        .collect();
+    for (i, f, via_cli) in all_violations.iter() {
         let t = progen::trial(seed, *i);
         let case = Case {
             program: t.program.clone(),
             input: t.input.clone(),
-            mem: t.mem as u64,
+            mem: if *via_cli { CLI_MEM } else { t.mem as u64 },
             b_first: i % 2 == 1,
+            cli: *via_cli,
         };
         let (min_case, min_f, attempts) = minimise(&case, &f.class);
         if min_f.class.starts_with("unconfirmed:") {
@@ -879,7 +1098,7 @@ fn run_parent(seed: u64, tier: Tier, runs: u64, workers: usize, want_log_hash: b
         }
         let dir = verif_root().join("replays");
         let _ = std::fs::create_dir_all(&dir);
-        let path = dir.join(format!("C30-{seed}-{i}.json"));
+        let path = dir.join(format!("C30-{seed}-{i}{}.json", if *via_cli { "-cli" } else { "" }));
         let rf = ReplayFile {
             property: "C30".into(),
             engine: "allocsim".into(),
@@ -967,6 +1186,14 @@ fn run_parent(seed: u64, tier: Tier, runs: u64, workers: usize, want_log_hash: b
         "known_findings_hit": st.known_hits,
         "known_finding_lines": klines,
         "reach_selfcheck_missing": missing,
+        "cli_tier": {
+            "what": "the same trials (seed, i) run through the real `succinctly jq -c --from-file` binary built from /repo, stdin = the input, RLIMIT_AS = 1 GiB, 10 s discard timeout; a death by signal, exit 101 or 134 is classified from stderr (refused allocation size, panic message, stack overflow)",
+            "trials": cli_trials,
+            "exit_classes": cli_classes,
+            "known_findings_hit": cli_known,
+            "violations": cli_violations.len(),
+            "wall_s": cli_wall,
+        },
         "real_vs_stub": {
             "real": ["succinctly::jq::parse", "jq::eval::<Vec<u64>, JqSemantics>", "jq::eval_generic::eval_with_cursor", "JsonIndex::build",
                      "eval_generic::{to_owned,to_owned_cursor}, LazySeq::materialize_atomic, OwnedValue::to_json (result materialisation and printing)"],
